@@ -56,6 +56,7 @@ func init() {
 	}
 	verifProtocolScenarios = append(verifProtocolScenarios,
 		verifScenario{"C11/interp.Interpreter.CompileAST/if:mainID/*", seq("m\n1\n", "package main\nfunc main() { println(\"m\") }", "x := 1", "println(x)")},
+		verifScenario{"C11/interp.compDefineX/*", seq("10 10 11\n", "func pair(x int) (int, int) { return x, x + 1 }", "a, b := pair(1)", "p := &a", "a, c := pair(10)", "println(*p, a, c)")},
 		verifScenario{"C11/interp.Interpreter.cfg/if:defineStmt#2/*", seq("1\n", "x := 1", "if true { x := 2; _ = x }", "println(x)")},
 		verifScenario{"C11/interp.Interpreter.gta/case:defineXStmt/*", seq("1 true\n", "m := map[string]int{\"a\": 1}", "v, ok := m[\"a\"]", "println(v, ok)")},
 		verifScenario{"C15/interp.genGlobalVarDecl/inv-step:loop5.all-seen-batch-members-inited", seq("1 2\n", "var a = 1", "var b = a + 1", "println(a, b)")},
